@@ -33,6 +33,8 @@ type RunResult struct {
 	Summary    string // one-line description of the case (for evidence samples)
 	States     []string // abstract states seen at quiescent points
 	Inconclusive int
+	SubRuns      int      // >0 when one call explored several runs (fault enumeration)
+	ExtraSigs    []string // signatures of the non-trivial sub-runs
 }
 
 // RunFunc runs one simulation.
@@ -162,7 +164,15 @@ func Main(world string, run RunFunc) {
 		core.ArmWatchdog(true)
 		res := run(*prop, *tier, c, *one >= 0)
 		core.ArmWatchdog(false)
-		rep.Runs++
+		if res.SubRuns > 0 {
+			rep.Runs += res.SubRuns
+		} else {
+			rep.Runs++
+		}
+		for _, es := range res.ExtraSigs {
+			rep.Nontrivial++
+			sigs[shortHash(es)] = true
+		}
 		rep.Steps += int64(res.Steps)
 		rep.SimNanos += res.SimNanos
 		rep.Inconclusive += res.Inconclusive
